@@ -858,6 +858,97 @@ def h_real_responses(r1: int, r2: int) -> bool:
     """
     return run(body_real_responses, r1, r2)
 
+
+# ------------------------------------------------------------------ the aiohttp front end: model request object vs real server
+def _model_raw_script_aio(script, prefix):
+    """The raw script through WebDAVApp.aiohttp_handler with the MODEL of an aiohttp request (xv/env/mhttp.AioRequest)
+    over the model world: real XML parsing / serialisation, real for_aiohttp() conversion."""
+    import re
+    from xv.core import drive
+    from xv.env import mhttp
+    mweb.fresh_world({"a.ics": b"xa", "b.ics": b"xb"}, {"c.vcf": b"v1"}, cfg="file")
+    app = mweb.make_app()
+
+    def request(method, path, body=b"", ctype=None, headers=()):
+        req = mhttp.AioRequest(method, path, prefix=prefix if prefix != "/" else "", headers=list(headers), body=body,
+                               content_type=ctype or "application/octet-stream", has_body=bool(body))
+        try:
+            resp = drive(app.aiohttp_handler(req, prefix))
+        except Exception as e:
+            return {"status": 500, "headers": {}, "body": b"", "exc": repr(e)}
+        b = resp.body
+        if b is None:
+            b = b""
+        elif not isinstance(b, (bytes, bytearray)):
+            b = getattr(b, "_value", b"")
+        return {"status": resp.status, "headers": dict(resp.headers), "body": bytes(b)}
+
+    res = []
+    for rq in script:
+        headers = []
+        for k, v in rq.get("h", []):
+            m = re.match(r"^(.*)\$ETAG\(([^)]*)\)(.*)$", v)
+            if m:
+                cur = request("HEAD", m.group(2))
+                et = cur["headers"].get("ETag") if cur["status"] < 300 else '"none"'
+                v = m.group(1) + et + m.group(3)
+            headers.append((k, v))
+        if "xml" in rq:
+            body, ct = rq["xml"].encode("utf-8"), rq.get("ct", "text/xml")
+        elif "tok" in rq:
+            body, ct = rq["tok"].encode("latin-1"), rq.get("ct")
+        else:
+            body, ct = b"", rq.get("ct")
+        r = request(rq["m"], rq["p"], body, ct, headers)
+        b = r["body"]
+        if rq["m"] == "GET" and r["status"] == 200 and not rq["p"].endswith("/"):
+            b = b"TOKEN:" + b
+        if r["status"] >= 500:
+            b = b""
+        keep = {k: v for k, v in r["headers"].items() if k in ("ETag", "Location", "Allow")}
+        res.append({"st": r["status"], "h": keep, "b": b.decode("latin-1")})
+    return res
+
+
+def body_real_aio_responses(r1):
+    """As `real_responses`, for the aiohttp front end: two-request scripts (first chosen by the solver, second looped
+    over the menu) through a REAL aiohttp server over loopback (real request objects, real route prefix wiring) and
+    through aiohttp_handler with the harness' MODEL of an aiohttp request: full answers identical up to the naming of
+    ids.  This is the check of xv/env/mhttp.AioRequest, on which every aiohttp-shaped harness rests."""
+    from xv.core import pick, untraced
+    q1 = RR_REQS[pick(r1, len(RR_REQS))]
+    with untraced():
+        import json
+        import os
+        import subprocess
+        import xv
+        prefix = ctx.PART
+        P = prefix.rstrip("/")
+        scripts = [_with_prefix([q1, q2], P) for q2 in RR_REQS]
+        job = {"raw": True, "prefix": prefix, "cal": {"a.ics": "xa", "b.ics": "xb"}, "ab": {"c.vcf": "v1"}, "scripts": scripts}
+        p = subprocess.run(["/venv/bin/python", os.path.join(os.path.dirname(__file__), "..", "real_aio.py"), "-"],
+                           input=json.dumps(job), capture_output=True, text=True, cwd=xv.REPO,
+                           env={"PATH": os.environ.get("PATH", ""), "PYTHONPATH": xv.REPO}, timeout=900)
+        if p.returncode != 0:
+            raise RuntimeError("real aiohttp driver failed: " + p.stderr[-600:])
+        for script, real in zip(scripts, json.loads(p.stdout)):
+            model = _model_raw_script_aio(script, prefix)
+            ids_r, ids_m = {}, {}
+            for k, (rr, mr) in enumerate(zip(real, model)):
+                a, b = _norm_response(rr, ids_r), _norm_response(mr, ids_m)
+                if a != b:
+                    ctx.LAST_EXC = "request %d of %r\n real: %r\nmodel: %r" % (k, [(x["m"], x["p"]) for x in script], a, b)
+                    return (False, "response-differs")
+        return (True, "same:" + q1["m"])
+
+
+def h_real_aio_responses(r1: int) -> bool:
+    """
+    pre: 0 <= r1 < len(RR_REQS)
+    post: _
+    """
+    return run(body_real_aio_responses, r1)
+
 _B = {"quick": {"n": 2, "blen": 2}, "thorough": {"n": 3, "blen": 3}}
 _WEB_PARTS_Q = [("PUT", False, "/"), ("PUT", True, "/dav/"), ("DELETE", False, "/"), ("DELETE", True, "/"),
                 ("POST", False, "/"), ("POST", True, "/dav/"), ("GET", True, "/")]
@@ -948,6 +1039,14 @@ HARNESSES = [
             encodes=["xandikos.web.XandikosApp.handle_wsgi_request", "xandikos.webdav._readXmlBody", "xandikos.webdav._send_dav_responses",
                      "xandikos.webdav._send_xml_response", "xandikos.webdav.Status.aselement", "xandikos.webdav.PropfindMethod.handle",
                      "xandikos.webdav.ReportMethod.handle", "xandikos.webdav.ProppatchMethod.handle", "xandikos.webdav.OptionsMethod.handle"]),
+    Harness("real_aio_responses", h_real_aio_responses, body_real_aio_responses, classes=[("same:PUT", "/"), ("same:PUT", "/dav/")],
+            parts={"quick": ["/", "/dav/"]}, bounds=_B, budget={"quick": 150, "thorough": 900},
+            per_path_timeout={"quick": 120, "thorough": 120}, twin_budget={"quick": 60, "thorough": 150},
+            describe="full answers of two-request scripts through a REAL aiohttp server over loopback and through "
+                     "aiohttp_handler with the harness' model of an aiohttp request: identical up to the naming of ids "
+                     "(validates xv/env/mhttp.AioRequest); part = route prefix",
+            encodes=["xandikos.webdav.WebDAVApp.aiohttp_handler", "xandikos.webdav.Response.for_aiohttp", "xandikos.webdav._readXmlBody",
+                     "xandikos.webdav._send_dav_responses", "xandikos.webdav.WebDAVApp._get_resource_from_environ"]),
     Harness("real_e2e", h_real_e2e, body_real_e2e, classes=[("first:PUT", None), ("first:DELETE", None)],
             bounds=_B, budget={"quick": 150, "thorough": 1500}, per_path_timeout={"quick": 120, "thorough": 120},
             twin_budget={"quick": 60, "thorough": 120},
